@@ -15,7 +15,7 @@ META = {
         technique='static analysis: forward context-sensitive unit-norm typestate (abstract interpretation over gated-SSA term graphs)',
         level='For all 25 public entry methods of the directional families and all paths through their private callees, the observation reaches each of the 7 scale-dependent '
               'sinks with unit norm along the axis the sink expects; only exact normalisers count. This is the mechanism that makes the models depend on direction only; '
-              'rounding-level invariance of numbers is not decided.',
+              'rounding-level invariance of numbers is not decided. A buffer normalised in place block by block (through views, pieces of np.array_split) is of unit norm when the blocks cover the axis (folded), otherwise its typestate is lost - undecided, not RAW.',
         note='Trusted: sink table, normaliser idioms, numpy axis semantics table. Watson/Bingham log_pdf are sinks themselves (densities on the sphere).',
         design='DESIGN.md section 3 (C04)'),
     'C20': dict(
@@ -24,7 +24,7 @@ META = {
               'effect may reach memory aliasing a parameter or stored field (set_snr excepted); no global/class-attribute writes; lazily set trainer attributes follow the '
               '`is None` + assert protocol; random numbers only when initialization is None; a cACGMM fit continued from a model starts with the E-step and has all M-step inputs assigned. '
               'Decides necessary conditions, not bit-exact reproducibility. '
-              'Also: the dimension a stateful trainer remembers / compares is the last axis of the observation. Also: an array returned by an lru_cache / cache function is storage shared between calls: no in-place effect reaches it. A public memoised function does not return writable arrays. Effects on lists / dicts are judged when the receiver is a parameter or a value taken out of **kwargs.',
+              'Also: the dimension a stateful trainer remembers / compares is the last axis of the observation. Also: an array returned by an lru_cache / cache function is storage shared between calls: no in-place effect reaches it. A public memoised function does not return writable arrays. Effects on lists / dicts are judged when the receiver is a parameter or a value taken out of **kwargs. ndarray.conj() / .conjugate() keep the alias of their operand unless it is known to be complex (they return the array itself for a real dtype).',
         note='Trusted: numpy view/copy table; results of unmodelled library calls may alias any argument (reported as unresolved, never as a violation). Cython variants not analysed.',
         design='DESIGN.md section 3 (C20)'),
     'C02': dict(
@@ -32,14 +32,14 @@ META = {
         level='Necessary conditions of monotone EM are decided: the reported log-likelihood includes the stored weights and is a class-axis log-sum of the component log-pdf; '
               'in the three cACG-based trainers the surrogate weight and the posterior stem from the same E-step call per iteration (aligner applied to both, ones at the start); '
               'weight and component updates use the same saliency-weighted affiliation; the E-step uses the model\'s own weights; Gaussian/cACG densities have the right structure. '
-              'Monotonicity along trajectories (a numerical statement) is NOT decided. Also: no parameter is assigned to an existing model instance whose __post_init__ cached quantities of the old one (R-FROZEN).',
+              'Monotonicity along trajectories (a numerical statement) is NOT decided. Also: no parameter is assigned to an existing model instance whose __post_init__ cached quantities of the old one (R-FROZEN). Also: an M-step sum accumulated block by block over the observations takes every observation (R-COVER: block bounds folded for extents around the block size).',
         note='Trusted: MM derivation of the cACG update, class axis -2. Shares rule instances with C01, C07, C08.',
         design='DESIGN.md section 3 (C02)'),
     'C03': dict(
         technique='static analysis: einsum contraction-structure rules, eigenpair-selection direction (R-SEL), signed-term linearisation of log_pdf (R-LIN)',
         level='The orientation conditions whose inversion destroys the class ranking while keeping shapes are decided: reciprocal eigenvalues and U diag U^H structure of the cACG '
               'quadratic form, principal (last) eigh eigenpair on the eigenvector column axis, signs of concentration / normaliser / determinant terms, row-index whitening, '
-              'exponent-weighted additive streams. The fixed-point behaviour itself is not decided. Also: a loop over the extent of a matrix stack uses its index (the partial scipy solver of get_pca does not and is dormant: off by default, never switched on in the package).',
+              'exponent-weighted additive streams. The fixed-point behaviour itself is not decided. Also: a loop over the extent of a matrix stack uses its index (the partial scipy solver of get_pca does not and is dormant: off by default, never switched on in the package). Also: the scatter matrices the complex component trainers decompose put the conjugated factor on the second index (shared with C08); block-wise loops cover their axis (R-COVER).',
         note='Trusted: numpy.linalg.eigh ascending order, scikit-learn precision Cholesky contract, density definitions.',
         design='DESIGN.md section 3 (C03)'),
     'C07': dict(
@@ -80,7 +80,7 @@ META = {
         level='eigh(target, noise) argument order, arg-max eigenvalue column / last pair of the ascending eigh, outer products with the conjugate on the second factor rescaled by '
               'tr(Phi)/tr(a a^H), Phi_nn w contracting the column index, both BAN chains and the (..., 1)-shaped absolute gain. Maximality of Rayleigh quotients is NOT decided; '
               'Cython variants are not analysed. '
-              'Also: BAN gain = sqrt(two-factor form) / magnitude of the one-factor form, in either operand order, np.divide(where=) or masked assignment. Also: the option string \'trace\' / \'eigenvalue\' selects the gain of that name. Also: a transposed Cholesky / eigenvector factor used as the coefficient of a solver carries a conjugation (R-HERM). Also: the vector get_pca_vector scales is the eigenvector itself (no np.sign factor).',
+              'Also: BAN gain = sqrt(two-factor form) / magnitude of the one-factor form, in either operand order, np.divide(where=) or masked assignment. Also: the option string \'trace\' / \'eigenvalue\' selects the gain of that name. Also: a transposed Cholesky / eigenvector factor used as the coefficient of a solver carries a conjugation (R-HERM). Also: the vector get_pca_vector scales is the eigenvector itself (no np.sign factor). Also: a stack decomposed block by block visits the last partial block (R-COVER).',
         note='Trusted: scipy.linalg.eigh(a, b) convention, numpy eigh ordering.',
         design='DESIGN.md section 3 (C12)'),
     'C13': dict(
@@ -88,7 +88,7 @@ META = {
         level='For all 12 names x {plain, +ban} plus chN: the primitives called, their order, the slots they are chained through and the returned value equal the composition the name spells. '
               'apply_beamforming_vector contracts conj(w) with the sensor axis; every literal axis in (..., )-documented beamforming functions counts from the right (phase_correction: -2); '
               'stable_solve falls back per matrix, index-local; MVDR solves stacks as columns. Finite-ness on singular input is NOT decided. '
-              'Also: phase_correction rotates bin f by the phase of w_f^H w_{f-1} summed over sensors and accumulates phasors by a product; every data reduction in the per-index helpers names its axis. Also: every array indexed by the flat loop index of stable_solve is a stack flattened to 3-D; no dropped clamp in the beamformer modules. Also: the helpers that pick their own reference channel rank the columns of the matrix they return a column of (shared with C11). Also: _get_gev_vector / get_lcmv_vector name the axis of every data reduction that is not taken of the current element of a loop over the leading index.',
+              'Also: phase_correction rotates bin f by the phase of w_f^H w_{f-1} summed over sensors and accumulates phasors by a product; every data reduction in the per-index helpers names its axis. Also: every array indexed by the flat loop index of stable_solve is a stack flattened to 3-D; no dropped clamp in the beamformer modules. Also: the helpers that pick their own reference channel rank the columns of the matrix they return a column of (shared with C11). Also: _get_gev_vector / get_lcmv_vector name the axis of every data reduction that is not taken of the current element of a loop over the leading index. Also: an axis computed from the rank of another array (R-ELL foreign rank: violation / undecided); block-wise loops cover their axis (R-COVER).',
         note='Trusted: the naming convention of the wrapper itself; exceptions table for front-broadcast / fixed-layout axes.',
         design='DESIGN.md section 3 (C13)'),
     'C14': dict(
@@ -119,6 +119,7 @@ META = {
         technique='static analysis: named-axis shape domain (abstract interpretation) + class-axis parametricity rules',
         level='With abstract shapes for every array in the 7 mixture models / trainers and mixture_model_utils: no integer literal on a class axis (shape templates excepted), no loop or '
               'branch over class indices, only symmetric reductions over the class axis, per-class work broadcast over an explicitly inserted class axis (14 sites). '
+              'A loop over class indices is accepted only as a symmetric accumulation of the k-th slice; no flat index (np.take without axis, .item) into a stacked array anywhere in the distribution modules. '
               'Rounding-level equality of relabelled runs is NOT decided; arg-max ties in the inline-PA search are a recorded order dependence.',
         note='Trusted: documented class axis labels (K / k / num_classes) in docstrings, shape unpackings and einsum subscripts; unresolved shapes are counted, never flagged.',
         design='DESIGN.md section 3 (C05)'),
@@ -127,7 +128,7 @@ META = {
         level='For every `...`-documented distribution / mixture function: literal axes count from the right, axis-less reductions only in listed scalar idioms; every escaping value of a '
               'function that flattens leading axes passes a reshape derived from the original shape; the Bingham per-problem loop is index-local; numpy constructors get one shape argument; '
               'stored fields get no more einsum core letters than documented. Numeric equality of slices is NOT decided. '
-              'Also: no layout-dependent flattening (order=K / A), np.squeeze names its axis.',
+              'Also: no layout-dependent flattening (order=K / A), np.squeeze names its axis. Also: an axis computed from the rank of an array the operand is not tied to is a violation (foreign parameter) or undecided (broadcast partner).',
         note='Trusted: field comments / docstring shapes; the fixed-layout (F, K, T) integration models are excluded by their own contract.',
         design='DESIGN.md section 3 (C06)'),
     'C09': dict(
@@ -135,7 +136,7 @@ META = {
         level='Each parameter stored in a fitted model is the value of its documented sanitiser with the documented bounds as operands (vMF clip and floored-norm mean, Watson saturating '
               'spline, cACG max-normalisation + floor + finiteness assert + Hermitian scatter, Bingham bounded solver + floor + Hermitian scatter, uniform / L1-normalised weights, floored '
               'Gaussian mass, Cholesky at construction). NaN-freeness on arbitrary degenerate data is NOT decided. '
-              'Also: a relative eigenvalue floor is relative to the largest eigenvalue. Also: no statement-level floor / clamp is computed and dropped (R-DROP). Also: a python-float floor below float32 tiny is not a positive floor (it is 0.0 against single-precision data). Also: np.linalg.eig in from_covariance only as the fallback of an exception handler.',
+              'Also: a relative eigenvalue floor is relative to the largest eigenvalue. Also: no statement-level floor / clamp is computed and dropped (R-DROP). Also: a python-float floor below float32 tiny is not a positive floor (it is 0.0 against single-precision data). Also: np.linalg.eig in from_covariance only as the fallback of an exception handler. Also: the options that select / bound the sanitisers (covariance_norm, eigenvalue_floor, concentration bounds) are handed on to the component trainer that applies them (R-FWD).',
         note='Trusted: sanitiser-per-field table from the documentation.',
         design='DESIGN.md section 3 (C09)'),
     'C18': dict(
